@@ -73,8 +73,12 @@ theorem payloadTy_congr (at_ : ArrayType) : payloadTy ⟨c, l', t⟩ at_ = paylo
 theorem armTy_congr (at_ : ArrayType) : armTy ⟨c, l', t⟩ at_ = armTy ⟨c, l, t⟩ at_ := by
   simp only [armTy, isGeneric_congr c t l l' h, payloadTy_congr c t l l' h]
 
+theorem targetGeneric_congr (b : BasicType) : Ast.targetGeneric ⟨c, l', t⟩ b = Ast.targetGeneric ⟨c, l, t⟩ b := by
+  cases b <;> simp only [Ast.targetGeneric, isGeneric_congr c t l l' h]
+
 theorem emitTypeDecl_congr (ty : AstType) : emitTypeDecl ⟨c, l', t⟩ ty = emitTypeDecl ⟨c, l, t⟩ ty := by
-  cases ty <;> simp only [emitTypeDecl, isGeneric_congr c t l l' h, payloadTy_congr c t l l' h, armTy_congr c t l l' h]
+  cases ty <;> simp only [emitTypeDecl, isGeneric_congr c t l l' h, payloadTy_congr c t l l' h, armTy_congr c t l l' h,
+    targetGeneric_congr c t l l' h]
 
 /-- **the emitters use the generic index only as a set** -/
 theorem generateModule_membership_only : generateModule ⟨c, l', t⟩ = generateModule ⟨c, l, t⟩ := by
